@@ -219,6 +219,16 @@ func judgeRaw(w *proxyWorld, res *Result) {
 			res.Probes["origin_truncated_body_relayed_as_abort"]++
 			continue
 		}
+		if ex.Complete && ex.Status >= 100 && ex.Status < 200 {
+			// An informational status as the last thing the client gets (a relayed "101 Switching
+			// Protocols" nobody asked for): well-formed, and no answer to the request - the client goes
+			// on waiting for a final response, or for a protocol it never asked to switch to.
+			cls := rawClass(ex.Req.Raw, w.p.Transport)
+			if hostileIdx >= 0 {
+				cls += fmt.Sprintf(",hostile-origin-response-%d", hostileIdx)
+			}
+			res.violate("C16.a", "unanswered (informational status as the final answer): "+cls, "request %q [%s] was answered with status %d and nothing after it [%s]", first, hdrs, ex.Status, pd)
+		}
 		if !ex.Complete {
 			cls := rawClass(ex.Req.Raw, w.p.Transport)
 			if hostileIdx >= 0 {
